@@ -2,6 +2,7 @@
 package props
 
 import (
+	"bytes"
 	"fmt"
 	"io"
 	"reflect"
@@ -120,6 +121,82 @@ func DecodeTrickle(b []byte, typeMap map[string]reflect.Type) (r DecRes) {
 		r.Runaway = true
 	}
 	return
+}
+
+// DecodeEOFWithData decodes through a reader that returns io.EOF in the same Read call as the last bytes.
+func DecodeEOFWithData(b []byte, typeMap map[string]reflect.Type) (r DecRes) {
+	rd := guard.NewReader(b)
+	rd.EOFWithData = true
+	func() {
+		defer func() {
+			if x := recover(); x != nil {
+				if _, ok := x.(guard.Runaway); ok {
+					r.Runaway = true
+					return
+				}
+				r.Panic = fmt.Sprint(x)
+			}
+		}()
+		d := hessian.NewDecoder(nil, typeMap)
+		r.Val, r.Err = d.ReadFrom(rd)
+	}()
+	r.Consumed = rd.Pos
+	if rd.Tripped {
+		r.Runaway = true
+	}
+	return
+}
+
+// DecodeFromBuffer decodes straight from a *bytes.Buffer (a reader with Len / Next / Bytes) and then
+// overwrites the storage the bytes came from: the decoded value must not change (no aliasing of input).
+func DecodeFromBuffer(b []byte, typeMap map[string]reflect.Type, render func(interface{}) string) (r DecRes, aliased bool) {
+	src := append([]byte{}, b...)
+	buf := bytes.NewBuffer(src)
+	r.Panic = core.Catch(func() { r.Val, r.Err = hessian.NewDecoder(nil, typeMap).ReadFrom(buf) })
+	if r.Panic != "" || r.Err != nil {
+		return
+	}
+	before := render(r.Val)
+	for i := range src {
+		src[i] ^= 0x5a
+	}
+	buf.Reset()
+	buf.Write(bytes.Repeat([]byte{0xa5}, len(src)))
+	return r, render(r.Val) != before
+}
+
+// AgreeReaders decodes b through the other reader environments (one byte per Read, io.EOF together with
+// the last bytes, a *bytes.Buffer whose storage is overwritten afterwards) and returns "" when each gives
+// the value want renders to, else a description. render must not print addresses.
+func AgreeReaders(b []byte, typeMap map[string]reflect.Type, want string, render func(interface{}) string) string {
+	for _, alt := range []struct {
+		name string
+		res  DecRes
+	}{{"a reader returning one byte per Read", DecodeTrickle(b, typeMap)}, {"a reader returning io.EOF together with the last bytes", DecodeEOFWithData(b, typeMap)}} {
+		if !alt.res.OK() {
+			return "decoding through " + alt.name + " fails: " + fmt.Sprint(alt.res.Err, alt.res.Panic)
+		}
+		if got := render(alt.res.Val); got != want {
+			return "decoding through " + alt.name + " gives another value"
+		}
+	}
+	fb, aliased := DecodeFromBuffer(b, typeMap, render)
+	if !fb.OK() {
+		return "decoding from a *bytes.Buffer fails: " + fmt.Sprint(fb.Err, fb.Panic)
+	}
+	if aliased {
+		return "a value decoded from a *bytes.Buffer changes when the buffer's storage is overwritten afterwards"
+	}
+	return ""
+}
+
+// RenderPlain renders scalars and pointer-free holders (a pointer to a struct is rendered by its target).
+func RenderPlain(v interface{}) string {
+	rv := reflect.ValueOf(v)
+	if rv.IsValid() && rv.Kind() == reflect.Ptr && !rv.IsNil() {
+		return fmt.Sprintf("*%T %+v", v, rv.Elem().Interface())
+	}
+	return fmt.Sprintf("%T %+v", v, v)
 }
 
 // DecodePublic runs hessian.ToObject (only on inputs known to return under Decode).
